@@ -61,6 +61,7 @@ type FuncSpec struct {
 	Assumed    bool
 	Conc       bool
 	ConcProps  []string  // properties under which the function is verified in thread-modular (volatile) mode
+	ConcAlso   bool      // `concurrent P... and sequential`: under those properties the function is verified twice
 	Shared     []*Clause // shared locations: may change before every atomic access in that mode
 	OnWrites   []*Clause // onwrite[label] loc: cond — checked right after each atomic write to loc (new/prev bound)
 	IsIface    bool
@@ -458,6 +459,12 @@ func (db *SpecDB) loadFile(path, pkgPath string) error {
 				cur.Assumed = true
 			case "concurrent":
 				cur.Conc = true
+				if r := strings.TrimSpace(rest); strings.HasSuffix(r, " and sequential") {
+					// verified twice under these properties: one thread alone (all clauses), and against interference
+					// (tagged clauses only; obligation names carry the suffix |thread-modular)
+					cur.ConcAlso = true
+					rest = strings.TrimSuffix(r, " and sequential")
+				}
 				for _, p := range strings.Split(rest, ",") {
 					if p = strings.TrimSpace(p); p != "" {
 						cur.ConcProps = append(cur.ConcProps, p)
